@@ -198,6 +198,12 @@ class Discipline(BaseDiscipline):
 
         if execute:
             self.execute(input_data)
+        elif self._has_jacobian and self.cache is not None:
+            # The Jacobian at hand is the one of the cache entry
+            # loaded by the last execution,
+            # which may have been done with other input data.
+            self.jac = self.cache[input_data].jacobian
+            self._has_jacobian = bool(self.jac)
 
         if not self._linearize_on_last_state:
             # The data shall be reset to their original values
